@@ -58,7 +58,13 @@ class RegModel:
                 self.leaf[b.id] = ms
         # fillers: bodies that create built-in handler closures
         hs = prog.builtin_handlers()
-        self.fillers = sorted({h.j.get('parent') for h in hs if h.is_closure and h.j.get('parent') in prog.by_id})
+        fl = {h.j.get('parent') for h in hs if h.is_closure and h.j.get('parent') in prog.by_id}
+        # ... or that hand a named fn of this crate over as a handler
+        for fu, escs in prog.fnitem_escapes.items():
+            for (body, to) in escs:
+                if dyn_fn_class(to) == 'handler' and fu in prog.by_id and not body.is_closure:
+                    fl.add(body.id)
+        self.fillers = sorted(fl)
         # writer family: leaf writers plus forwarders (bodies whose only registry-affecting action is
         # one call into the family whose arguments are their own parameters, constants, or a record
         # built from those)
@@ -314,8 +320,12 @@ def rule_wdisp(rm, em):
             if c.ruid and c.term['arg_tys'] and 'context::Context' in c.term['arg_tys'][0] and c.term['dest']['ty'].startswith('std::option::Option<') \
                     and 'dyn std::ops::Fn' in c.term['dest']['ty']:
                 lookups.append(c)
+        # in the dispatching body itself only the region handling the Function variant counts
+        entry = r_order._arm_entry(em, b, 'Function')
+        region = b.reachable_from(entry) if entry else set(b.live_blocks)
+        lookups = [c for c in lookups if c.bb in region]
         globals_ = [c for c in b.live_calls if any(t in rm.reach_reg_lock for t in ([c.ruid] if c.ruid else []))
-                    and c.ruid not in rm.must_init and c.ruid != em.exec.id]
+                    and c.ruid not in rm.must_init and c.ruid != em.exec.id and c.bb in region]
         if len(lookups) != 1:
             obs.append(bad('WDISP', key, 'expected exactly one context-function lookup in %s, found %d' % (b.name, len(lookups)), b.where(), body=b.name))
             continue
@@ -346,7 +356,7 @@ def rule_wdisp(rm, em):
             if not globals_:
                 problems.append('no global-registry fallback')
             # handler call on the Some edge uses the context function
-            hs = em.handler_sites(b)
+            hs = [h for h in em.handler_sites(b) if h.bb in region]
             ctxh = [h for h in hs if some_t and edge_dominates(b, some_t[0], some_t[1], h.bb)]
             if not ctxh:
                 problems.append('no handler call on the "context has the function" edge')
